@@ -210,6 +210,7 @@ def run_case(case, ctx):
                         f"returns obligated examples {got_obl}, written with "
                         f"it: {want}")
                 ctx.count("filters")
+                ctx.evaluated()
         aba = False
         for sp in (0, 1):
             lits = [p[2] for p in pattern if p[0] == sp and p[1] == "lit"]
